@@ -2827,6 +2827,62 @@ example : callWithObject Spec.exactLib .toFixed (.num (decode 0x3fe0000000000000
 example : (callWithObject Spec.exactLib .toExponential (.num .nan) ⟨[.throw], [.num (ofInt 2)]⟩).2 = [118] := by decide +kernel
 example : (Spec.callWithObject .toPrecision (.num .nan) ⟨[.obj], [.num (ofInt 2)]⟩).2 = [118, 115] := by decide +kernel
 
+/-! ## parseInt with object arguments: conversion order (§15.1.2.2 steps 1, 6) -/
+
+/-- C06.parseInt_argument_order: for every string argument (primitive, object with a logging toString, object
+    whose toString throws) and every scripted radix object, otto's parseInt performs ToString(string) first and
+    ToInt32(radix) next and ALWAYS (also for a string without digits: ae747ea) — same call log and same
+    exception as §15.1.2.2 steps 1 and 6 — and returns the spec's value whenever parseInt agrees on the
+    converted primitives. -/
+theorem parseIntWithObjects_eq (sa : StrArg) (sc : Script)
+    (h : ∀ s v, (sa = .prim s ∨ sa = .obj s) → parseInt s (.num v) = Spec.parseInt s (.num v)) :
+    parseIntWithObjects sa sc = Spec.parseIntWithObjects sa sc := by
+  cases sa with
+  | throws => rfl
+  | prim s =>
+    simp only [parseIntWithObjects, Spec.parseIntWithObjects, convert_eq]
+    cases hc : Spec.toNumberObj sc ⟨0, 0, []⟩ with
+    | mk c st =>
+      cases c with
+      | thrown => rfl
+      | typeError => rfl
+      | val v => simp only [h s v (Or.inl rfl)]
+  | obj s =>
+    simp only [parseIntWithObjects, Spec.parseIntWithObjects, convert_eq]
+    cases hc : Spec.toNumberObj sc ⟨0, 0, [83]⟩ with
+    | mk c st =>
+      cases c with
+      | thrown => rfl
+      | typeError => rfl
+      | val v => simp only [h s v (Or.inr rfl)]
+
+/-- the radix is converted whatever the string is: unless ToString(string) throws, the log contains 'v' -/
+theorem radix_always_converted (sa : StrArg) (sc : Script) (hs : sa ≠ .throws) :
+    118 ∈ (parseIntWithObjects sa sc).2 := by
+  have hlog : ∀ st : CState, 118 ∈ (convert sc st).2.log := by
+    intro st
+    rw [convert_eq]; unfold Spec.toNumberObj
+    cases pick sc.vs st.vi with
+    | num x => simp
+    | throw => simp
+    | obj => simp only; cases pick sc.ss st.si <;> simp
+  cases sa with
+  | throws => exact absurd rfl hs
+  | prim s =>
+    simp only [parseIntWithObjects]
+    have := hlog ⟨0, 0, []⟩
+    cases hc : convert sc ⟨0, 0, []⟩ with
+    | mk c st => rw [hc] at this; cases c <;> exact this
+  | obj s =>
+    simp only [parseIntWithObjects]
+    have := hlog ⟨0, 0, [83]⟩
+    cases hc : convert sc ⟨0, 0, [83]⟩ with
+    | mk c st => rw [hc] at this; cases c <;> exact this
+
+example : parseIntWithObjects (.prim []) ⟨[.num (ofInt 10)], [.num (ofInt 2)]⟩ = (.num .nan, [118]) := by decide +kernel
+example : (parseIntWithObjects (.obj [32]) ⟨[.throw], [.num (ofInt 2)]⟩).2 = [83, 118] := by decide +kernel
+
+
 /-! ## non-vacuity of the layout theorem, witnesses of the remaining deviation regions, and the
     former regions (now model = spec) -/
 
